@@ -14,7 +14,7 @@ PROP = Property(
         {"func": "security/cert/auth.go:Authority.VerifyTimeoutCert", "order": ["QuorumSize", "Verify"]},
         {"func": "security/cert/auth.go:Authority.VerifyAggregateQC", "order": ["QuorumSize", "BatchVerify", "findHighestValidQC"]},
         {"func": "security/cert/auth.go:Authority.findHighestValidQC", "contains": ["SortFunc", "VerifyQuorumCert"]},
-        {"func": "security/cert/auth.go:Authority.VerifyAnyQC", "contains": ["VerifyAggregateQC", "Equals", "VerifyQuorumCert"]},
+        {"func": "security/cert/auth.go:Authority.VerifyAnyQC", "order": ["QuorumCert", "HasAggregateQC", "Sig", "VerifyAggregateQC", "View", "View", "BlockHash", "BlockHash", "VerifyQuorumCert"]},
     ],
     trusted=COMMON_TRUST + CRYPTO_TRUST,
     assumptions=["views < 2^63 (the signed comparator of the high-QC sort is not modelled beyond)",
